@@ -1,13 +1,18 @@
 (* C20 -- versioning.  Definitions only.
 
    A versioned plain (eager) class with the fixture columns of Model/Events.v
-   (a = IntCol(), b = StringCol(default=None), c = IntCol(default=7)) and the
+   (a = IntCol(unique=True), b = StringCol(default=None), c = IntCol(default=7);
+   the UNIQUE constraint gives the database a reason to refuse a write that
+   passed validation) and the
    version table that sqlobject/versioning synthesises for it (masterID, the
    master's columns, dateArchived -- the latter is not modelled).
 
    `vstep` is written after versioning/__init__.py (Versioning.rowUpdate is a
-   RowUpdateSignal listener: it snapshots instance.sqlmeta.asDict() into a new
-   version row BEFORE main.py validates or writes anything; Version.restore is
+   RowUpdateSignal listener: since 6e91999 it first runs the columns'
+   from_python on the event's values -- an ill-typed update raises Invalid
+   there, nothing archived -- and then snapshots instance.sqlmeta.asDict()
+   into a new version row, BEFORE main.py issues the UPDATE: an update the
+   database then refuses leaves the version behind; Version.restore is
    masterClass.get(masterID).set( **values)) and main.py (_SO_setValue / set).
    `hist` is a ghost component: the successive states of every master row,
    extended by each successful update.  It plays no part in the behaviour. *)
@@ -58,22 +63,38 @@ Fixpoint hist_push (m : Z) (r : kwargs) (h : list (Z * list kwargs)) : list (Z *
   end.
 Definition hist_of (m : Z) (st : vstate) : list kwargs := hist_get m (hist st).
 
+(* UNIQUE(a): NULLs never collide *)
+Definition same_key (x y : val) : bool :=
+  match x, y with VInt a, VInt b => Z.eqb a b | _, _ => false end.
+(* would writing w into the row of master `skip` (None: as a new row) violate it? *)
+Definition a_conflict (skip : option Z) (w : kwargs) (t : list (Z * kwargs)) : bool :=
+  match kw_get CA w with
+  | Some x =>
+      existsb (fun row => negb (match skip with Some m => Z.eqb (fst row) m | None => false end)
+                          && match kw_get CA (snd row) with Some y => same_key x y | None => false end) t
+  | None => false
+  end.
+
 (* an update of master m with the (already built) dict kw:
-   RowUpdateSignal -> Versioning.rowUpdate archives the current values;
-   then validation (may raise: the version row stays); then the UPDATE *)
+   RowUpdateSignal -> Versioning.rowUpdate validates the event's values (may
+   raise: nothing happened) and archives the current values; then main.py
+   validates again and issues the UPDATE (the database may refuse it: the
+   version row stays) *)
 Definition vupdate (st : vstate) (m : Z) (kw : kwargs) : vstate * voutcome :=
   match row_of m (m_tbl st) with
   | None => (st, VNoHandle)
   | Some r =>
-      let ver := {| v_id := v_next st; v_master := m; v_vals := r |} in
-      if negb (validate kw) then
-        ({| m_tbl := m_tbl st; m_next := m_next st; v_tbl := v_tbl st ++ [ver]; v_next := v_next st + 1;
-            hist := hist st |}, VExn XInvalid)
+      if negb (validate kw) then (st, VExn XInvalid)
       else
+        let ver := {| v_id := v_next st; v_master := m; v_vals := r |} in
         let w := sort_cols kw in
-        ({| m_tbl := tbl_update m w (m_tbl st); m_next := m_next st;
-            v_tbl := v_tbl st ++ [ver]; v_next := v_next st + 1;
-            hist := hist_push m (row_update w r) (hist st) |}, VDone)
+        if a_conflict (Some m) w (m_tbl st) then
+          ({| m_tbl := m_tbl st; m_next := m_next st; v_tbl := v_tbl st ++ [ver]; v_next := v_next st + 1;
+              hist := hist st |}, VExn XDuplicate)
+        else
+          ({| m_tbl := tbl_update m w (m_tbl st); m_next := m_next st;
+              v_tbl := v_tbl st ++ [ver]; v_next := v_next st + 1;
+              hist := hist_push m (row_update w r) (hist st) |}, VDone)
   end.
 
 Definition vstep (st : vstate) (o : vop) : vstate * voutcome :=
@@ -83,6 +104,7 @@ Definition vstep (st : vstate) (o : vop) : vstate * voutcome :=
       | None => (st, VExn XTypeError)
       | Some kw2 =>
           if negb (validate kw2) then (st, VExn XInvalid)
+          else if a_conflict None kw2 (m_tbl st) then (st, VExn XDuplicate)   (* the INSERT fails, no id is used up *)
           else
             let id := m_next st in
             ({| m_tbl := m_tbl st ++ [(id, sort_cols kw2)]; m_next := id + 1;
@@ -108,16 +130,19 @@ Fixpoint vrun (st : vstate) (ops : list vop) : list vrec :=
   end.
 Definition vfinal (st : vstate) (ops : list vop) : vstate := fold_left (fun s o => fst (vstep s o)) ops st.
 
-(* the histories the property speaks about: every update carries well-typed
-   values (so no update fails validation); creations may fail, restores may
-   name versions that do not exist *)
-Definition vop_ok (o : vop) : bool :=
-  match o with
-  | VAssign _ c v => val_ok (col_ty c) v
-  | VSet _ kw => validate (mk_kw kw)
-  | _ => true
+(* the histories the remaining open finding excludes: those in which the
+   DATABASE refuses an update (assignment, set or restore) that passed
+   validation.  Updates refused by validation, failing creations, restores of
+   unknown versions and unknown masters may occur. *)
+Definition db_refused (w : vrec) : bool :=
+  match w_op w, w_out w with
+  | VCreate _, _ => false
+  | _, VExn XDuplicate => true
+  | _, _ => false
   end.
-Definition vguard (ops : list vop) : bool := forallb vop_ok ops.
+Definition vguard_from (st : vstate) (ops : list vop) : bool :=
+  forallb (fun w => negb (db_refused w)) (vrun st ops).
+Definition vguard (ops : list vop) : bool := vguard_from vinit ops.
 
 (* the master an update operation addresses in a given state *)
 Definition vtarget (st : vstate) (o : vop) : option Z :=
